@@ -60,11 +60,24 @@ Proof. exact del_children_spec. Qed.
 Print Assumptions C01_effect_del.
 
 Theorem C01_effect_sort : forall s p keys rv,
-  let s' := set_kids s p (py_sort (fun x => nth x keys 0) rv (kids s p)) in
+  let s' := set_kids s p (py_sort (key_of keys) rv (kids s p)) in
   Permutation (kids s' p) (kids s p)
   /\ (forall q, q <> p -> kids s' q = kids s q) /\ (forall x, par s' x = par s x).
 Proof. exact sort_effect. Qed.
 Print Assumptions C01_effect_sort.
+
+(* the sort operation as a whole: when a comparison raises (an incomparable key among two or more children)
+   nothing changes; otherwise the children of p are exactly the stable sort by the key table and every
+   other list and every parent pointer is as before *)
+Theorem C01_sort_step : forall cfg s p keys rv, in_range s p = true ->
+  let r := step cfg s (Sort p keys rv) in
+  (sort_raises keys (kids s p) = true -> r = (s, Err TypeError))
+  /\ (sort_raises keys (kids s p) = false ->
+      snd r = Ok /\ kids (fst r) p = py_sort (key_of keys) rv (kids s p)
+      /\ Permutation (kids (fst r) p) (kids s p)
+      /\ (forall q, q <> p -> kids (fst r) q = kids s q) /\ (forall x, par (fst r) x = par s x)).
+Proof. exact sort_step_effect. Qed.
+Print Assumptions C01_sort_step.
 
 (* what must be rejected is rejected, and the state is untouched *)
 Theorem C01_rejects_parent : forall cfg ft s c a,
